@@ -1,5 +1,5 @@
 """What MANIFEST.json claims.  One entry per property with a working check."""
-HOOK_COMMITS = ["4df701df", "5e06587e"]
+HOOK_COMMITS = ["4df701df", "5e06587e", "df12885e"]
 NOTES = ("All checks: bin/check <id> --tier quick|thorough; exit 0 held / 1 VIOLATION / 2 tool error. Expected values are "
          "always computed by TLC from the TLA+ specification in /verif/spec; the Rust harness only executes and compares. "
          "Known findings: /verif/findings/known_findings.jsonl.")
